@@ -87,7 +87,7 @@ CLAIMS["C12"] = {
 CLAIMS["C13"] = {
     "engine": "ORIGIN",
     "technique": "static analysis: ORIGIN typestate of the PSD pipeline per parity; NORM with uninterpreted fft/sum atoms for the normalisation; API-surface rule (library attribute uses vs installed NumPy/SciPy and the NumPy 1.x/2.x name sets, guard-aware); def-use rules for integration spacings and the RMS rescale order",
-    "text": "Decides: every NumPy/SciPy name used by interferogram/fttools/coordinates/util exists in the installed library and in NumPy 1.x or sits under an AttributeError/hasattr guard; the PSD's DC bin coincides with the zero of forward_ft_unit for odd and even lengths; psd == |fft2(h w)|^2 dx^2/sum(w^2) (GH_FFT power normalisation, hence Parseval with df=1/(N dx)); ux/uy come from the column/row counts and are broadcast as (rows=y, cols=x); the band mask keeps [flow, fhigh] and each axis is integrated with its own frequency step; a synthetic surface is masked, then measured with the NaN-aware rms, then scaled by requested/measured. Not decided: band additivity/monotonicity to round-off and the trapezoid end weights.",
+    "text": "Decides: every NumPy/SciPy name used by interferogram/fttools/coordinates/util exists in the installed library and in NumPy 1.x or sits under an AttributeError/hasattr guard; the PSD's DC bin coincides with the zero of forward_ft_unit for odd and even lengths; psd == |fft2(h w)|^2 dx^2/sum(w^2) (GH_FFT power normalisation, hence Parseval with df=1/(N dx)); ux/uy come from the column/row counts and are broadcast as (rows=y, cols=x); the band mask keeps [flow, fhigh] and each axis is integrated with its own frequency step; a synthetic surface is masked, then measured with the NaN-aware rms, then scaled by requested/measured; no function of the PSD chain writes in place through an argument. Not decided: band additivity/monotonicity to round-off and the trapezoid end weights.",
     "note": TRUST + "ORIGIN typestate; the installed NumPy/SciPy API surface (read by importing those libraries, not prysm); frozen list of names new in NumPy 2.x.",
 }
 
@@ -95,31 +95,31 @@ OTRUST = TRUST + "ORDER engine (carried-set loop denotation with reference recur
 CLAIMS["C07"] = {
     "engine": "ORDER",
     "technique": "static analysis: inductive loop-invariant checking of the three-term recurrence loops inside NORM (carried names become opaque order atoms, one symbolic iteration, post-state == head state at i+1); NORM equality of base cases and compositions with generated reference closed forms",
-    "text": "Decides for EVERY order n and all shape parameters: recurrence_abc == DLMF 18.9.2 (special case == general after cancellation); jacobi, hermite_He, hermite_H, laguerre, dickson1, dickson2: base cases equal the reference closed forms and the loop preserves 'carried names hold orders i-2, i-1', so f(n) is the order-n polynomial; Legendre and the four Chebyshev kinds (and their derivatives) are the correctly normalised Jacobi polynomials; Zernike norm and Z_n^m = norm r^|m| P^(0,|m|)((n-|m|)/2; 2r^2-1) cos/sin for m=0, m>0, m<0. Not decided: orthogonality / unit-RMS integrals, Forbes Q polynomials against the papers (no independent reference offline), float growth at high order.",
+    "text": "Decides for EVERY order n and all shape parameters: recurrence_abc == DLMF 18.9.2 (special case == general after cancellation); jacobi, hermite_He, hermite_H, laguerre, dickson1, dickson2: base cases equal the reference closed forms and the loop preserves 'carried names hold orders i-2, i-1', so f(n) is the order-n polynomial; Legendre and the four Chebyshev kinds (and their derivatives) are the correctly normalised Jacobi polynomials; Zernike norm and Z_n^m = norm r^|m| P^(0,|m|)((n-|m|)/2; 2r^2-1) cos/sin for m=0, m>0, m<0. Forbes' auxiliary coefficients (Qbfs f/g/h; Q2d A/B/C, gamma, F, G, f, g) equal the published formulas case by case, and Q2d/Qbfs/Qcon are the published recurrences (starting polynomials, initial carried values, one pass, rotation, sweep range, azimuthal/radial prefix; induction over the order); the sequence forms emit the polynomial of the requested order and never overwrite a shared table (rules shared with C08). Not decided: orthogonality / unit-RMS integrals, float growth at high order.",
     "note": OTRUST + "orders n >= 0.",
 }
 CLAIMS["C08"] = {
     "engine": "ORDER",
     "technique": "static analysis: ORDER interpretation of the emission sweeps with a symbolic order list (guards ns[k]==e tie stored values to orders); SHAPE abstract interpretation with pairwise-distinct symbolic dimensions for coordinate ranks 0..3; NORM sibling comparison; integer lower-bound (interval) reasoning for orders",
-    "text": "Decides for every ascending order list (contiguous or gapped, any start) and every coordinate shape of rank 0..3: each store guarded by ns[k]==e holds the order-e polynomial (or its derivative) in slot k, the running index advances once per store, the sweep ends at ns[-1] (jacobi, hermite x2, laguerre, dickson x2 and the three derivative sweeps); 20 sequence functions return shape (K,*S) with per-order constants broadcast along axis 0 only; Chebyshev/Legendre sequence functions apply the same constant and parameters as the scalar ones; no order that can be negative reaches a recurrence; xy_seq monomial tables hold x**k for all k including 0. Not decided: bitwise float equality of the two evaluation orders; Qbfs/Qcon/Q2d/zernike sequence shapes.",
+    "text": "Decides for every ascending order list (contiguous or gapped, any start) and every coordinate shape of rank 0..3: each store guarded by ns[k]==e holds the order-e polynomial (or its derivative) in slot k, the running index advances once per store, the sweep ends at ns[-1] (jacobi, hermite x2, laguerre, dickson x2 and the three derivative sweeps); 20 sequence functions return shape (K,*S) with per-order constants broadcast along axis 0 only; Chebyshev/Legendre sequence functions apply the same constant and parameters as the scalar ones; no order that can be negative reaches a recurrence; xy_seq monomial tables hold x**k for all k including 0. Two-index sequences: every mode of zernike_nm_seq/Q2d_seq/xy_seq has the shape the single-term function returns for ranks 0..3 on every branch; tables shared across requests are never written in place through an alias; zernike_nm_seq's table laws make the stored mode equal zernike_nm(n,m) for m=0, m>0, m<0 with and without norm; Qbfs_seq/Qcon_seq/Q2d_seq pre-sweep stores, sweep start, one pass, emission and request loop equal Qbfs/Qcon/Q2d. Not decided: bitwise float equality of the two evaluation orders; hopkins; zernike_nm_der_seq (a plain loop over zernike_nm_der).",
     "note": OTRUST + "SHAPE broadcasting model (sa/domains/shape.py); documented contract that requested orders are ascending non-negative integers.",
 }
 CLAIMS["C09"] = {
     "engine": "NORM",
     "technique": "static analysis: NORM symbolic differentiation D (sum/product/quotient/chain through sqrt, exp, log, arctan, sin, cos, pow and declared atoms such as D_x jacobi = jacobi_der) compared with the returned normal forms; restricted-step rule for Clenshaw derivative seeds; ORDER for derivative sweeps",
-    "text": "Decides: jacobi_der / hermite_*_der / laguerre_der equal the reference identities for n=0, n=1 and general n; the derivative sweeps emit the derivative of the guarded order; Chebyshev/Legendre derivatives use the value functions' constants; Clenshaw-derivative seeds (Jacobi, Qbfs, Q2d) equal the general step restricted to index M-jj, sit at that index and the sweep continues below them (all derivative orders j); sphere/conic slope == d/drho of the sag; zernike_nm_der == (d/dr, d/dt) of zernike_nm for m=0, m>0, m<0 with and without norm; Qbfs/Qcon sag-slope assembly == d/du of the sag given the Clenshaw contract. Not decided: float accuracy; off-axis conic and Q2d slope assemblies.",
+    "text": "Decides: jacobi_der / hermite_*_der / laguerre_der equal the reference identities for n=0, n=1 and general n; the derivative sweeps emit the derivative of the guarded order; Chebyshev/Legendre derivatives use the value functions' constants; Clenshaw-derivative seeds (Jacobi, Qbfs, Q2d) equal the general step restricted to index M-jj, sit at that index and the sweep continues below them (all derivative orders j); sphere/conic slope == d/drho of the sag; zernike_nm_der == (d/dr, d/dt) of zernike_nm for m=0, m>0, m<0 with and without norm; Qbfs/Qcon sag-slope assembly == d/du of the sag given the Clenshaw contract. off_axis_conic_der == (d/dr, d/dt) off_axis_conic_sag and off_axis_conic_sigma_der == (d/dr, d/dt)(1/off_axis_conic_sigma) for both decentre branches; Q2d_and_der slopes == derivative of base + Z(r/R,t)/sigma by the product and chain rules. Not decided: float accuracy; compute_z_zprime_Q2d's azimuthal assembly beyond the C10 rules.",
     "note": OTRUST + "differentiation rules of sa/core/norm.py; Clenshaw contract alphas[j] = j-th x-derivative of alphas[0].",
 }
 CLAIMS["C10"] = {
     "engine": "NORM",
     "technique": "static analysis: NORM with uninterpreted recurrence coefficients for the Clenshaw step form and restricted-step rule; integer lower-bound reasoning refined by guards for the length-1 case; symmetric-guard (SYM) and dominance rules over the AST; def-use rule for the least-squares mask",
-    "text": "Decides: jacobi_sum_clenshaw, clenshaw_qbfs and clenshaw_q2d steps have the form c[n] + L(n) alpha[n+1] - C alpha[n+2] with (a,b) from n and c from n+1, their initial statements are that step restricted to the top indices and the sweep reaches index 0; with a coefficient vector of length 1 no negative order/index is formed and no missing entry is read; the cosine and sine families of the Q2d evaluator are guarded symmetrically and no Clenshaw sum runs on an empty family; the packer never takes max() of an empty key set; lstsq restricts data and modes by one finite-mask; sum_of_2d_modes contracts the mode axis. Not decided: conditioning / rank of the fit.",
+    "text": "Decides: jacobi_sum_clenshaw, clenshaw_qbfs and clenshaw_q2d steps have the form c[n] + L(n) alpha[n+1] - C alpha[n+2] with (a,b) from n and c from n+1, their initial statements are that step restricted to the top indices and the sweep reaches index 0; with a coefficient vector of length 1 no negative order/index is formed and no missing entry is read; the cosine and sine families of the Q2d evaluator are guarded symmetrically and no Clenshaw sum runs on an empty family; the sine block is the cosine block under one renaming and every shared name is independent of both families; the packer never takes max() of an empty key set and bounds its azimuthal range by the maximum KEY of both dictionaries; lstsq restricts data and modes by one finite-mask; sum_of_2d_modes contracts the mode axis. Not decided: conditioning / rank of the fit.",
     "note": OTRUST + "Clenshaw summation identity S = alpha_0 P_0.",
 }
 CLAIMS["C14"] = {
     "engine": "FLIP/TABLE",
     "technique": "static analysis: abstract interpretation of writer and reader in a rank-aware flip-group domain (Z2xZ2); header-token role matching between the writer's f-string and the reader's parser; constant folding of the struct field table (sizes, overlaps); NORM composition of writer and reader scale factors; must-pass-through rule on the truncation handler",
-    "text": "Decides: reader flips compose with writer flips to the identity taking into account the rank the array has at each flip (Zygo, Code V); header tokens/fields are written and read in the same roles (rows/cols of reshape, byte count, GRD order); the 834-byte Zygo field table is self-consistent and shared; reader scale o writer scale is the identity rational function with the header values the writer stores (W,S,O,phase_res / WVL,SSZ), dx and wavelength units round trip through Interferogram; the invalid sentinel written is the one tested and NaN masks precede integer casts; the Code V quantisation scale is 32767/max|valid| (positive, no int16 overflow for any value range); a truncated phase block raises or warns and marks every missing sample invalid, a truncated intensity block raises. Not decided: the one-quantisation-step error bound itself; ASCII and datx paths.",
+    "text": "Decides: reader flips compose with writer flips to the identity taking into account the rank the array has at each flip (Zygo, Code V); header tokens/fields are written and read in the same roles (rows/cols of reshape, byte count, GRD order); the 834-byte Zygo field table is self-consistent and shared; reader scale o writer scale is the identity rational function with the header values the writer stores (W,S,O,phase_res / WVL,SSZ), dx and wavelength units round trip through Interferogram; the invalid sentinel written is the one tested, NaN masks precede integer casts and are taken from the map in the orientation of the array they index; the Code V quantisation scale is 32767/max|valid| (positive, no int16 overflow for any value range); a truncated phase block raises or warns and marks every missing sample invalid, a truncated intensity block raises. Not decided: the one-quantisation-step error bound itself; ASCII and datx paths.",
     "note": TRUST + "numpy semantics of flipud on rank-1 vs rank-2 arrays; struct.calcsize; Code V GRD <nx> <ny> convention of the reader.",
 }
 CLAIMS["C15"] = {
@@ -137,13 +137,13 @@ CLAIMS["C16"] = {
 CLAIMS["C18"] = {
     "engine": "DATAFLOW",
     "technique": "static analysis: statement-order dataflow over the per-segment loop bodies (list appends, the OR into the aperture, name rebinding, early exits) and the compose_opd loops",
-    "text": "NARROW claim. Decides: in both composite-aperture builders every per-segment list is appended exactly once per segment, unconditionally, with no early exit in between; the aperture mask is written only by OR-ing the (window, mask) pair that is also recorded (plus zero initialisation, the centre mask and spider removal); builder results reach the objects under matching names; composed OPD is multiplied by the segment's own mask before it is accumulated into the segment's own window. Not decided: disjointness, areas, analytic boundaries, monotonic growth, symmetry (geometry of values).",
+    "text": "Decides: in both composite-aperture builders every per-segment list is appended exactly once per segment, unconditionally, with no early exit in between; the aperture mask is written only by OR-ing the (window, mask) pair that is also recorded (plus zero initialisation, the centre mask and spider removal); builder results reach the objects under matching names; composed OPD is multiplied by the segment's own mask before it is accumulated into the segment's own window; hexagonal ring i is numbered after all ids of ring i-1 whatever is excluded, ids and centres are filtered by one mask; circle, annulus, offset circle, rectangle (0, 90 degrees, general angle), rotated ellipse (exact rotation of the quadratic form, boundary kept), spider (1..4 vanes) and the polygon vertices equal their analytic inequalities as formulas, from which monotonic growth and symmetry follow. Not decided: disjointness and areas of rasterised segments; the qhull point-in-polygon test; truecircle.",
     "note": TRUST + "nothing beyond the parser: purely structural.",
 }
 CLAIMS["C19"] = {
     "engine": "NORM(vec)",
     "technique": "static analysis: vector algebra in NORM (vectors as linear combinations of {S, r} with Gram atoms) for refract/reflect; structural rules for the frame transforms, the surface normal and the Newton step; guard rule for division by the radial coordinate",
-    "text": "Decides: refract and reflect return unit direction cosines for a surface normal of ANY length (the gradient that intersect hands over), refraction scales the tangential component by n/n' (Snell), reflection is the mirror law; local/global frame transforms are R(X-P) and RX+P with directions rotated only, raytrace goes in with (P,R) and out with (P,R^T); the normal is (-dz/dx,-dz/dy,1), the Newton step is s - F/(S.gradF), the polar-to-Cartesian slope formula; no unguarded division by the radial coordinate (on-axis ray). Not decided: Newton convergence, intersection tolerance.",
+    "text": "Decides: refract and reflect return unit direction cosines for a surface normal of ANY length (the gradient that intersect hands over), refraction scales the tangential component by n/n' (Snell), reflection is the mirror law; local/global frame transforms are R(X-P) and RX+P with directions rotated only, raytrace goes in with (P,R) and out with (P,R^T); the normal is (-dz/dx,-dz/dy,1), the Newton step is s - F/(S.gradF), the polar-to-Cartesian slope formula; no unguarded division by the radial coordinate (on-axis ray); conic and off-axis-conic slopes are the derivatives of their sags; only (Pj, Sj, nj) flow from one surface to the next (nothing else is read before it is assigned in the per-surface loop) and only the unconverged-ray index set between Newton iterations; the convergence test compares a provably non-negative step size with eps. Not decided: Newton convergence rate, intersection tolerance.",
     "note": TRUST + "Gram-matrix vector algebra (sa/rules/c19.py).",
 }
 
